@@ -5,7 +5,7 @@ META = {
     'level': 'proof',
     'technique': 'Lean 4: invariants over all trees/fault plans/cancellation points (inode bound, size bound, cancelled walk) and a refinement of the walk engine to a sequential machine over the '
                  'specification\'s trace of handleFile calls (run_trace), from which the exact inode-limit and cancellation behaviour follow; correspondence at limit-1, limit, limit+1 and every cancel point',
-    'design_ref': 'DESIGN.md §5 C10',
+    'design_ref': 'DESIGN.md §4 (section of C10), §5 (defects), §7 (seeded changes)',
     'text': 'Kernel-checked for every forest, fault plan, option set and cancellation point: at most MaxInodes inodes are processed over the whole scan; no Extract call ever '
             'receives a file above MaxFileSize (a file of exactly the limit is extracted); once cancelled a walk step starts no extraction and returns an error, and the attempts '
             'made after a cancellation from inside Extract all concern the file being handled. Exact behaviour (errors not fatal, extractors do not panic): with an inode limit the scan fails '
